@@ -15,7 +15,8 @@ EXTENDS Integers, Sequences, FiniteSets, TLC, Json
 
 CONSTANTS
     Shapes,     \* writer shapes explored: "flusher" (http.Flusher), "flusherr" (FlushError() error),
-                \*   "wrap1" / "wrap2" (reach a flusherr through Unwrap), "wrapflusher" (reach a Flusher through Unwrap)
+                \*   "wrap1" / "wrap2" (reach a flusherr through Unwrap), "wrapflusher" (reach a Flusher through Unwrap),
+                \*   "both" (Flush() and FlushError(), like net/http's own writer: the error-reporting one must be used)
     Msgs,       \* messages that may be sent (abstract names; "empty" encodes to nothing)
     MaxOps,     \* Send / Flush calls per history
     Faults      \* fault plans: [kind |-> "none"] | [kind |-> "flush", n |-> k] (the k-th underlying flush fails)
@@ -30,7 +31,7 @@ VARIABLES shape, fault,
           hist       \* the calls and what they returned
 vars == <<shape, fault, didUpgrade, log, nflush, nwsend, failed, hist>>
 
-CanFailFlush(sh) == sh \in {"flusherr", "wrap1", "wrap2"}     \* http.Flusher.Flush reports nothing
+CanFailFlush(sh) == sh \in {"flusherr", "wrap1", "wrap2", "both"}     \* http.Flusher.Flush reports nothing
 
 Init ==
     /\ shape \in Shapes /\ fault \in Faults
